@@ -216,6 +216,33 @@ func slashVariants(base string) []string {
 	return out
 }
 
+// the same insertions with every octet of the last segment percent-encoded (upper or lower hex): escapes that begin like the
+// encoded slash (%2D, %2E) and others come before and after it
+func slashVariantsEncoded(base string) []string {
+	idx := strings.LastIndex(base, "/") + 1
+
+	encode := func(s, format string) string {
+		var sb strings.Builder
+
+		for i := 0; i < len(s); i++ {
+			fmt.Fprintf(&sb, format, s[i])
+		}
+
+		return sb.String()
+	}
+
+	var out []string
+
+	for i := idx; i <= len(base); i++ {
+		for _, enc := range []string{"%2F", "%2f"} {
+			out = append(out, base[:idx]+encode(base[idx:i], "%%%02X")+enc+encode(base[i:], "%%%02X"),
+				base[:idx]+encode(base[idx:i], "%%%02x")+enc+encode(base[i:], "%%%02x"))
+		}
+	}
+
+	return out
+}
+
 type obs struct {
 	status  int
 	allowed bool
@@ -385,7 +412,7 @@ func Check() *engine.Check {
 		Level: "exploration",
 		Rule: "8 rule-set shapes (literal, single wildcard, single wildcard with path_params, free wildcard, single wildcard whose literal prefix the proxy strips - each next to a /** catch-all -, rules with different settings on one expression, two rules with the same path_params under different settings and " +
 			"default rule only) x 3 allow_encoded_slashes settings x 3 canonical paths x (every spelling with any subset of the designated " +
-			"unreserved octets - 6 quick / 9 thorough, always including the first and last octet of the path and of every segment - percent-encoded in upper or lower hex = 3^n per path, and %2F / %2f inserted at every position of the last segment, also together with the first octet of the path percent-encoded; the encoded-slash cases also after an update that changed nothing but the setting) " +
+			"unreserved octets - 6 quick / 9 thorough, always including the first and last octet of the path and of every segment - percent-encoded in upper or lower hex = 3^n per path, and %2F / %2f inserted at every position of the last segment, also together with the first octet of the path percent-encoded and with every octet of the last segment percent-encoded; the encoded-slash cases also after an update that changed nothing but the setting) " +
 			"x decision and proxy service, sent as raw request bytes through http.ReadRequest and the real handler chains with real mechanisms, and the Envoy ext_authz service (the request target with a query in the path attribute, as Envoy sends it); " +
 			"oracle: metamorphic equality with the canonical spelling (rule, captures, decision) and the encoded-slash table of the statement. " +
 			"Non-trivial = spelling differs from the canonical one or contains an encoded slash.",
@@ -467,6 +494,10 @@ func run(c *engine.Ctx) {
 
 							// the same with the first octet of the path (part of the literal prefix) percent-encoded as well
 							judge(c, apps, &Case{name, setting, base, fmt.Sprintf("/%%%02X", p[1]) + p[2:], "slash", svc, ""})
+						}
+
+						for _, p := range slashVariantsEncoded(base) {
+							judge(c, apps, &Case{name, setting, base, p, "slash", svc, ""})
 						}
 					}
 				})
